@@ -76,35 +76,42 @@ def _compute_thl_try_speciation(
     min_ltr = table.entry()
     min_rtr = table.entry()
 
+    # Sub-costs include the losses between the child species and the child
+    # placement, so that placements are compared on their full cost
+    def loss_dist(species):
+        return loss_cost * (species_lca.distance(root_species, species) - 1)
+
     for left_child in left_species.traverse():
         min_ltl.update(
             Candidate(
-                table[left_node][left_child].value(),
+                table[left_node][left_child].value() + loss_dist(left_child),
                 left_child,
             )
         )
         min_rtl.update(
             Candidate(
-                table[right_node][left_child].value(),
+                table[right_node][left_child].value() + loss_dist(left_child),
                 left_child,
             )
         )
 
     for right_child in right_species.traverse():
-        min_ltr.update(Candidate(table[left_node][right_child].value(), right_child))
-        min_rtr.update(Candidate(table[right_node][right_child].value(), right_child))
+        min_ltr.update(
+            Candidate(
+                table[left_node][right_child].value() + loss_dist(right_child),
+                right_child,
+            )
+        )
+        min_rtr.update(
+            Candidate(
+                table[right_node][right_child].value() + loss_dist(right_child),
+                right_child,
+            )
+        )
 
     def spe_combinator(left, right):
         return Candidate(
-            costs[NodeEvent.SPECIATION]
-            + left.value
-            + right.value
-            + loss_cost
-            * (
-                species_lca.distance(root_species, left.info)
-                + species_lca.distance(root_species, right.info)
-                - 2
-            ),
+            costs[NodeEvent.SPECIATION] + left.value + right.value,
             MappingInfo(left.info, right.info),
         )
 
@@ -136,11 +143,20 @@ def _compute_thl_try_duplication_transfer(
 
     for other_species in species_lca.tree.traverse():
         if species_lca.is_ancestor_of(root_species, other_species):
+            # Include the losses between the root species and the placement,
+            # so that placements are compared on their full cost
+            loss_dist = loss_cost * species_lca.distance(root_species, other_species)
             min_ltc.update(
-                Candidate(table[left_node][other_species].value(), other_species)
+                Candidate(
+                    table[left_node][other_species].value() + loss_dist,
+                    other_species,
+                )
             )
             min_rtc.update(
-                Candidate(table[right_node][other_species].value(), other_species)
+                Candidate(
+                    table[right_node][other_species].value() + loss_dist,
+                    other_species,
+                )
             )
         elif not species_lca.is_ancestor_of(other_species, root_species):
             min_lts.update(
@@ -153,33 +169,20 @@ def _compute_thl_try_duplication_transfer(
     # Try mapping as a duplication
     def dup_combinator(left, right):
         return Candidate(
-            dup_cost
-            + left.value
-            + right.value
-            + loss_cost
-            * (
-                species_lca.distance(root_species, left.info)
-                + species_lca.distance(root_species, right.info)
-            ),
+            dup_cost + left.value + right.value,
             MappingInfo(left.info, right.info),
         )
 
     # Try mapping as a horizontal transfer
     def hgt_l_combinator(left, right):
         return Candidate(
-            hgt_cost
-            + left.value
-            + right.value
-            + loss_cost * species_lca.distance(root_species, left.info),
+            hgt_cost + left.value + right.value,
             MappingInfo(left.info, right.info),
         )
 
     def hgt_r_combinator(left, right):
         return Candidate(
-            hgt_cost
-            + left.value
-            + right.value
-            + loss_cost * species_lca.distance(root_species, right.info),
+            hgt_cost + left.value + right.value,
             MappingInfo(left.info, right.info),
         )
 
